@@ -1,26 +1,26 @@
 import BadgerProofs.Props.C24
 import BadgerProofs.Props.C25
 /-!
-# C24 ∘ C25: the key-range split of a backup run is irrelevant when all producers read at one
-timestamp — `C24_full` / `C24_incremental` (stated for the unsplit run `backupKVs`) therefore
+# C24 ∘ C25: the key-range split of a backup run is irrelevant — all producers read at the run's one
+timestamp (commit 5000444) — `C24_full` / `C24_incremental` (stated for the unsplit run `backupKVs`) therefore
 speak about every `backupRun` whose producers share their read timestamp.
 -/
 namespace Badger
 
 /-- C24_split_irrelevant: for any split points and any `NumGo`, a `DB.Backup(w, since)` whose
-    producers all read at `R` writes, range by range, exactly the KVs of `backupKVs`, and
+    producers all read at the run's timestamp `R` (`Stream.beginRun`) writes, range by range, exactly the KVs of `backupKVs`, and
     returns the maximum version among them. -/
 theorem C24_split_irrelevant (view : List Ent) (hs : SortedEnts view) (since R now : Nat)
     (splits : List Bytes) (hne : ∀ s ∈ splits, s ≠ [])
-    (rts : List Nat) (hlen : rts.length = (splitRanges splits).length) (hall : ∀ r ∈ rts, r = R) :
-    (backupRun view [] since since now (splitRanges splits) rts).lists.flatten = backupKVs view since R now ∧
-    (backupRun view [] since since now (splitRanges splits) rts).maxVersion =
+ :
+    (backupRun view [] since since now (splitRanges splits) R).lists.flatten = backupKVs view since R now ∧
+    (backupRun view [] since since now (splitRanges splits) R).maxVersion =
       maxVersionOf (backupKVs view since R now) := by
-  have h : (backupRun view [] since since now (splitRanges splits) rts).lists.flatten =
+  have h : (backupRun view [] since since now (splitRanges splits) R).lists.flatten =
       backupKVs view since R now := by
     unfold backupRun backupKVs
     simp only
-    rw [SL.streamRun_const view (backupCfg [] since since now) now R (splitRanges splits) rts hlen hall]
+    unfold streamRun
     exact C25_concat view hs (backupCfg [] since since now) R now splits hne (fun s _ => by simp [backupCfg])
   refine ⟨h, ?_⟩
   show maxVersionOf _ = _
@@ -28,7 +28,7 @@ theorem C24_split_irrelevant (view : List Ent) (hs : SortedEnts view) (since R n
   simp only at h
   rw [h]
 
-example : (backupRun C24Aux.exView [] 0 0 0 (splitRanges [[2]]) [5, 5]).lists.flatten = backupKVs C24Aux.exView 0 5 0 := by
+example : (backupRun C24Aux.exView [] 0 0 0 (splitRanges [[2]]) 5).lists.flatten = backupKVs C24Aux.exView 0 5 0 := by
   decide
 
 end Badger
